@@ -520,6 +520,13 @@ func (g pairGen) kvs(allowNull bool) []kv {
 	return l
 }
 
+// count: a distribution counter of the generator (not counted when the pairs are diverted to a sink)
+func (g pairGen) count(k string) {
+	if g.sink == nil && !g.xkeys {
+		g.ctx.Count(k)
+	}
+}
+
 func (g pairGen) emit(attr string, short, long map[string]any) {
 	if g.sink != nil {
 		g.sink(attr, short, long)
@@ -625,8 +632,8 @@ func (g pairGen) otherDoc(attr string, long map[string]any) map[string]any {
 		k := ks[r.Intn(len(ks))]
 		var nv any = "ov"
 		switch path {
-		case "extra_hosts":
-			nv = "9.9.9.9"
+		case "extra_hosts", "build.extra_hosts":
+			nv = []any{"9.9.9.9", "[fe80::9]", "::9"}[r.Intn(3)]
 		case "build.ssh":
 			nv = "/other"
 		}
@@ -828,29 +835,61 @@ func (g pairGen) one(i int) {
 			k := []string{"volumes", "networks"}[r.Intn(2)]
 			g.emit("kv:"+k+".labels", doc(map[string]any{}, map[string]any{k: map[string]any{"r": map[string]any{"labels": kvListForm(l)}}}), doc(map[string]any{}, map[string]any{k: map[string]any{"r": map[string]any{"labels": kvMapForm(l)}}}))
 		}
-	case 19: // extra_hosts
+	case 19: // extra_hosts / build.extra_hosts
+		// round 7: one to three addresses per host, IPv4 or IPv6, each written bare or in brackets — independently in
+		// the list spelling and in the mapping spelling ("[::1]" and "::1" denote the same address: cleanup() strips
+		// the brackets on both decode paths); several addresses as `h=a,b`, as repeated `h=a`, `h=b` entries, or as a
+		// list-valued mapping entry; the legacy `host:ip` separator with IPv6 addresses too (only the first colon cuts)
 		hosts := []string{"h1", "h2.example", "h-3"}
-		ips := []string{"1.2.3.4", "::1", "fe80::1", "10.0.0.1"}
+		ips := []string{"1.2.3.4", "::1", "fe80::1", "10.0.0.1", "2001:db8::2", "::ffff:10.1.2.3"}
+		br := func(ip string) string {
+			if r.Intn(3) == 0 {
+				g.count("hosts:bracketed")
+				return "[" + ip + "]"
+			}
+			return ip
+		}
 		var l []any
 		m := map[string]any{}
 		for _, h := range hosts[:1+r.Intn(3)] {
-			ip := ips[r.Intn(len(ips))]
+			n := 1
+			if r.Intn(3) == 0 {
+				n = 2 + r.Intn(2)
+				g.count("hosts:multi-address")
+			}
 			sep := "="
-			if r.Intn(3) == 0 && !strings.Contains(ip, ":") {
+			if r.Intn(3) == 0 {
 				sep = ":"
 			}
-			if r.Intn(4) == 0 {
-				l = append(l, h+sep+"["+ip+"]")
-			} else {
-				l = append(l, h+sep+ip)
+			var ls []string
+			var ms []any
+			for ; n > 0; n-- {
+				ip := ips[r.Intn(len(ips))]
+				if strings.Contains(ip, ":") {
+					g.count("hosts:ipv6")
+				}
+				ls = append(ls, br(ip))
+				ms = append(ms, br(ip))
 			}
-			if r.Intn(2) == 0 {
-				m[h] = ip
+			if len(ls) > 1 && r.Intn(2) == 0 {
+				for _, a := range ls { // repeated entries of one host accumulate
+					l = append(l, h+sep+a)
+				}
 			} else {
-				m[h] = []any{ip}
+				l = append(l, h+sep+strings.Join(ls, ","))
+			}
+			if len(ms) == 1 && r.Intn(2) == 0 {
+				m[h] = ms[0]
+			} else {
+				g.count("hosts:list-valued-entry")
+				m[h] = ms
 			}
 		}
-		g.emit("kv:extra_hosts", doc(svcWith("extra_hosts", l), nil), doc(svcWith("extra_hosts", m), nil))
+		if r.Intn(3) == 0 {
+			g.emit("kv:build.extra_hosts", doc(svcWith("build", map[string]any{"context": ".", "extra_hosts": l}), nil), doc(svcWith("build", map[string]any{"context": ".", "extra_hosts": m}), nil))
+		} else {
+			g.emit("kv:extra_hosts", doc(svcWith("extra_hosts", l), nil), doc(svcWith("extra_hosts", m), nil))
+		}
 	case 20: // build.additional_contexts / build.ssh
 		if r.Intn(2) == 0 {
 			g.emit("kv:build.additional_contexts", doc(svcWith("build", map[string]any{"context": ".", "additional_contexts": []any{"a=./x", "b=docker-image://i=j"}}), nil),
